@@ -327,7 +327,7 @@ class VersionRange(VersionRangeConstraint):
             return VersionUnion.of(before, after)
         elif isinstance(other, VersionUnion):
             ranges: list[VersionRangeConstraint] = []
-            current: VersionRangeConstraint = self
+            current: VersionRangeConstraint | None = self
 
             for range in other.ranges:
                 # Skip any ranges that are strictly lower than [current].
@@ -341,7 +341,8 @@ class VersionRange(VersionRangeConstraint):
 
                 difference = current.difference(range)
                 if difference.is_empty():
-                    return EmptyConstraint()
+                    current = None
+                    break
                 elif isinstance(difference, VersionUnion):
                     # If [range] split [current] in half, we only need to continue
                     # checking future ranges against the latter half.
@@ -351,10 +352,10 @@ class VersionRange(VersionRangeConstraint):
                     assert isinstance(difference, VersionRangeConstraint)
                     current = difference
 
-            if not ranges:
-                return current
+            if current is not None:
+                ranges.append(current)
 
-            return VersionUnion.of(*([*ranges, current]))
+            return VersionUnion.of(*ranges)
 
         raise ValueError(f"Unknown VersionConstraint type {other}.")
 
